@@ -3,7 +3,7 @@
 
 From Coq Require Import List Bool ZArith QArith Arith.
 Import ListNotations.
-From PS Require Import Num ModelKernels ModelFuncs ModelAPI Val.
+From PS Require Import Num ModelKernels ModelFuncs ModelAPI ModelIO Heap Val.
 Local Open Scope nat_scope.
 
 Definition o := QOps.
@@ -245,6 +245,30 @@ Definition dispatch (id : nat) (args : list val) : val :=
   | 82, [edges; xs] =>
       match asQs edges, asQs xs with
       | Some e, Some x => encQs (hist_counts o e x)
+      | _, _ => bad end
+  (* ---- text framing (ModelIO.v): strings are lists of character codes ---- *)
+  | 90, [sep; trains] =>
+      match asNs sep, asStrsL trains with
+      | Some sp, Some ts => VL (map encStr (save_lines sp ts))
+      | _, _ => bad end
+  | 91, [sep; comment; VB ie; lines] =>
+      match asNs sep, asNs comment, asStrs lines with
+      | Some sp, Some cm, Some ls => VL (map (fun t => VL (map encStr t)) (load_lines sp cm ie ls))
+      | _, _, _ => bad end
+  | 92, [VQ ts; VQ te; VN n; xs] =>
+      match asQs xs with
+      | Some x => VL [encQs (psth_edges o ts te n); encQs (psth_counts o ts te n x)]
+      | None => bad end
+  | 93, [VQ t0; VQ t1; draws] =>
+      match asQs draws with Some d => encQs (poisson_spikes o t0 t1 d) | None => bad end
+  (* ---- histories of add / mul_scalar / copy on piecewise-constant objects (Heap.v) ---- *)
+  | 94, [bases; ops] =>
+      match asPwcs bases, asOps ops with
+      | Some bs, Some os =>
+          let st := run o (map (fun b => ONew (fst b) (snd b)) bs ++ os) empty_state in
+          VL [VL (map (fun k => match denote st k with Some f => encPwc f | None => VNone end)
+                      (seq 0 (length (st_objs st))));
+              VL (map VE (st_errs st))]
       | _, _ => bad end
   | _, _ => bad
   end.
